@@ -182,7 +182,7 @@ M("c18-bom-kept", "C18", "decode-wrap", (LX, "            text = text[len(codecs
 M("c18-module-encoded-utf8", "C18", "module-encoding", (T, 'source = source.encode(lexer.encoding or "ascii")', 'source = source.encode("utf-8")'))
 M("c18-render-unicode-encodes", "C18", "render-encoding", (R, "    if as_unicode:\n        buf = util.FastEncodingBuffer()\n    else:", "    if False:\n        buf = util.FastEncodingBuffer()\n    else:"))
 M("c18-getvalue-always-encodes", "C18", "render-encoding", (U, "        if self.encoding:\n            return self.delim.join(self.data).encode(\n                self.encoding, self.errors\n            )\n        else:\n            return self.delim.join(self.data)", "        return self.delim.join(self.data).encode(\n            self.encoding or 'utf-8', self.errors\n        )"))
-M("c18-coding-class-narrow", "C18", "module-encoding", (LX, 'r"#.*coding[:=]\\s*([-\\w.]+).*\\r?\\n"', 'r"#.*coding[:=]\\s*([-\\w]+).*\\r?\\n"'))
+M("c18-coding-class-narrow", "C18", "module-encoding", (LX, 'r"#.*coding[:=][ \\t]*([-\\w.]+).*\\r?\\n"', 'r"#.*coding[:=][ \\t]*([-\\w]+).*\\r?\\n"'))
 M("c18-comment-not-skipped", "C18", "decode-wrap", (LX, "        self.match_reg(self._coding_re)\n", ""))
 
 # ---------------------------------------------------------------- C07
@@ -281,3 +281,9 @@ M("c20-lineno-uncompensated", "C20", "offset-algebra", (EXT, "                co
 M("c20-babel-off-by-one", "C20", "offset-algebra", (BB, "                code_lineno + (lineno - 1),", "                code_lineno + lineno,"))
 M("c20-text-scanned", "C20", "dispatch-exhaustive", (EXT, "            elif isinstance(node, parsetree.Expression):\n                code = node.code.code\n", "            elif isinstance(node, parsetree.Text):\n                code = node.content\n            elif isinstance(node, parsetree.Expression):\n                code = node.code.code\n"))
 M("c20-def-signature-dropped", "C20", "dispatch-exhaustive", (EXT, "                code = node.function_decl.code\n", "                code = ''\n"))
+
+# ---------------------------------------------------------------- round-2 rules
+M("c01-coding-re-spans-lines", "C01", "escapes-consume", (LX, 'r"#.*coding[:=][ \\t]*([-\\w.]+).*\\r?\\n"', 'r"#.*coding[:=]\\s*([-\\w.]+).*\\r?\\n"'))
+M("c03-loop-parent-bottom", "C03", "loop-pairing", (R, "            new.parent = self.stack[-1]\n", "            new.parent = self.stack[0]\n"))
+M("c07-ns-key-no-self", "C07", "memo-keys", (R, "        key = (self, uri)\n", "        key = (__name__, uri)\n"))
+M("c10-decode-shared-state", "C10", "decode-type", ("mako/filters.py", "    def __getattr__(self, key):\n        def decode(x):", "    def __getattr__(self, key):\n        self._enc = key\n\n        def decode(x):"))
